@@ -432,6 +432,10 @@ func parseRealms(lines []string) (realms []Realm, err error) {
 		//if strings.Contains(l, "v4_") {
 		//	return nil, errors.New("v4 configurations are not supported in Realms section")
 		//}
+		if c == 0 && !strings.ContainsAny(l, "={}") {
+			// outside a realm block only "REALM = {" (or a relation) can appear
+			return nil, fmt.Errorf("realm configuration line invalid: %s", l)
+		}
 		if strings.Contains(l, "{") {
 			c++
 			if !strings.Contains(l, "=") {
@@ -466,6 +470,10 @@ func parseRealms(lines []string) (realms []Realm, err error) {
 				realms = append(realms, r)
 			}
 		}
+	}
+	if c != 0 {
+		// the section ended inside a block: the realm being defined would silently be dropped
+		return nil, errors.New("invalid Realms section in configuration: missing closing curly bracket")
 	}
 	return
 }
